@@ -590,7 +590,7 @@ func c08Scenario(variant, victim int) Scenario {
 	if variant == 2 {
 		b := (victim + 1) % 3
 		other := (victim + 2) % 3
-		sc.Byz[b] = ByzStrategy{Commit: cmCorrect, Eval: map[int]int{victim: evWrong, other: evCorrect}, Accuse: []int{victim}, Apology: apCorrect, DealOff: 2, AccOff: 2, ApoOff: 4, Repeat: true}
+		sc.Byz[b] = ByzStrategy{Commit: cmCorrect, Eval: map[int]int{victim: evWrong, other: evCorrect}, Accuse: []int{victim}, Apology: apCorrect, DealOff: 2, AccOff: 2, ApoOff: 4, Repeat: true, ExtraApology: 1}
 	}
 	if variant == 3 {
 		// one broadcast per iteration, as with a real Tendermint node whose
@@ -652,7 +652,7 @@ func c08Scenario(variant, victim int) Scenario {
 		sc.Lag = map[int]int{victim: 3}
 		b := (victim + 1) % 3
 		other := (victim + 2) % 3
-		sc.Byz[b] = ByzStrategy{Commit: cmCorrect, Eval: map[int]int{victim: evWrong, other: evCorrect}, Accuse: []int{victim}, Apology: apCorrect, DealOff: 2, AccOff: 2, ApoOff: 4, Repeat: true}
+		sc.Byz[b] = ByzStrategy{Commit: cmCorrect, Eval: map[int]int{victim: evWrong, other: evCorrect}, Accuse: []int{victim}, Apology: apCorrect, DealOff: 2, AccOff: 2, ApoOff: 4, Repeat: true, ExtraApology: 1}
 	}
 	return sc
 }
@@ -969,7 +969,7 @@ func canonRows(rows []map[string]any) string {
 
 // ---------------------------------------------------------------------------
 
-const c08Rule = "case = (victim keyper, crash point) in a DKG run in which the crash-free twin succeeds (n=3,t=2,L=8, every keyper one sync+onchain+send iteration per block; variants: all honest with two keyper-set orders and check-in fork on/off; one Byzantine keyper that deals a wrong eval to the victim and accuses it falsely (each of its accusation/apology/eval messages preceded by a copy whose address list repeats an entry, which shuttermint refuses), so that the victim also has an accusation and an apology to get through): every client->database round trip k of the victim observed in a crash-free reference run x {connection lost before the request, request executed (COMMIT applied) but reply lost}, and every accepted BroadcastTxCommit x {process dies before the outbox row is deleted}; a fourth variant sends one message per keyper and block (commitment-only blocks exist); in a fifth and sixth the victim is a slow node that runs its main loop only every 2nd / 3rd block (the sixth together with the Byzantine dealer, L=10), so that it catches up over sync ranges of several blocks with one transaction each and crash points lie between them; in a seventh and eighth one / two other keypers come up late and check in 1-3 blocks after the eon start (n=4, L=10 for two), so that evaluations of the victim wait in poly_evals for a receiver's encryption key while it crashes; in a ninth and tenth the late check-in follows the eon start by one block and the victim is a slow node (ninth) or not (tenth), so that two outbox rows with the same description ('poly eval (eon=N)' for the receivers known at the eon start and for the late one) are pending together - always in the ninth, after a crash between the EonStarted block's transaction and the send in the tenth; quick (every seed) runs the one-message variant, the Byzantine variant and the every-2nd-block variant with victim k1 and every 7th database point, plus every point of the on-chain-changes transactions that queue a block-seen report (the observed main-chain block number passes activation block 0 at bootstrap and activation block 100 of keyper set 1 six blocks after the eon start) in the one-message variant, plus the one-late-keyper variant and the late-keyper-with-slow-victim variant restricted to the blocks h0+2..h0+8 around the late check-in with every 3rd point, thorough all ten variants, all three victims, every point and 400 sampled pairs of crashes per variant and victim. In addition, in every run (crash-free twin included), after every main-loop iteration of every honest keyper that ended without error, and after every per-block transaction inside a sync range, the PureDKG objects in the keyper's memory (read through reflect) must equal the puredkg rows decoded from its database: what a keyper knows after a committed block must be persisted. After every block and every restart last_block_seen must not be ahead of the newest block-seen report queued or sent, and at the end the victim must have got through every block-seen report (activation blocks 0 and 100) that a keyper that never crashed got through. Non-trivial = the crash fell inside an open database transaction (block-tx, block-commit, onchain-tx, onchain-commit), on the outbox delete, or between an accepted broadcast and the delete (as opposed to an idle poll or a BEGIN). Distinct = (variant, victim, crash points)."
+const c08Rule = "case = (victim keyper, crash point) in a DKG run in which the crash-free twin succeeds (n=3,t=2,L=8, every keyper one sync+onchain+send iteration per block; variants: all honest with two keyper-set orders and check-in fork on/off; one Byzantine keyper that deals a wrong eval to the victim and accuses it falsely (each of its accusation/apology/eval messages preceded by a copy whose address list repeats an entry, which shuttermint refuses; its apology, which lands in the middle of the apologizing phase in a block of its own, carries behind the genuine entry one for a keyper that never accused it, with an out-of-range evaluation), so that the victim also has an accusation and an apology to get through): every client->database round trip k of the victim observed in a crash-free reference run x {connection lost before the request, request executed (COMMIT applied) but reply lost}, and every accepted BroadcastTxCommit x {process dies before the outbox row is deleted}; a fourth variant sends one message per keyper and block (commitment-only blocks exist); in a fifth and sixth the victim is a slow node that runs its main loop only every 2nd / 3rd block (the sixth together with the Byzantine dealer, L=10), so that it catches up over sync ranges of several blocks with one transaction each and crash points lie between them; in a seventh and eighth one / two other keypers come up late and check in 1-3 blocks after the eon start (n=4, L=10 for two), so that evaluations of the victim wait in poly_evals for a receiver's encryption key while it crashes; in a ninth and tenth the late check-in follows the eon start by one block and the victim is a slow node (ninth) or not (tenth), so that two outbox rows with the same description ('poly eval (eon=N)' for the receivers known at the eon start and for the late one) are pending together - always in the ninth, after a crash between the EonStarted block's transaction and the send in the tenth; quick (every seed) runs the one-message variant, the Byzantine variant and the every-2nd-block variant with victim k1 and every 7th database point, plus every point of the on-chain-changes transactions that queue a block-seen report (the observed main-chain block number passes activation block 0 at bootstrap and activation block 100 of keyper set 1 six blocks after the eon start) in the one-message variant, plus the one-late-keyper variant and the late-keyper-with-slow-victim variant restricted to the blocks h0+2..h0+8 around the late check-in with every 3rd point, thorough all ten variants, all three victims, every point and 400 sampled pairs of crashes per variant and victim. In addition, in every run (crash-free twin included), after every main-loop iteration of every honest keyper that ended without error, and after every per-block transaction inside a sync range, the PureDKG objects in the keyper's memory (read through reflect) must equal the puredkg rows decoded from its database: what a keyper knows after a committed block must be persisted. After every block and every restart last_block_seen must not be ahead of the newest block-seen report queued or sent, and at the end the victim must have got through every block-seen report (activation blocks 0 and 100) that a keyper that never crashed got through. Non-trivial = the crash fell inside an open database transaction (block-tx, block-commit, onchain-tx, onchain-commit), on the outbox delete, or between an accepted broadcast and the delete (as opposed to an idle poll or a BEGIN). Distinct = (variant, victim, crash points)."
 
 func c08Assumptions(rec *Recorder) {
 	rec.Assume(
